@@ -3,7 +3,7 @@
 //
 // Script mode (deterministic schedules, from TLC or from python):
 //
-//	reset   {mode:"hook"|"public", interval, cap, unit, k}
+//	reset   {mode:"hook"|"public", interval, cap, unit, k, psz, snap}
 //	append  {id, req, psz}   AddToBuffer with explicit eventTsNs (payload = id, psz bytes)
 //	tflush  {}               one iteration of the timer goroutine's body (hook)
 //	fl1     {}               the flusher's flushFn takes the data (it becomes readable "from disk")
@@ -230,6 +230,8 @@ type execution struct {
 	pushed    int
 	completed int
 	shut      bool
+	hung      bool // a subscriber never came back: nothing that takes the buffer's lock may be called any more
+	snaps     bool // record the unexported state after every step (for the layer-B conformance judge)
 }
 
 var errStop = fmt.Errorf("harness stop")
@@ -361,7 +363,9 @@ func (x *execution) settle() {
 }
 
 func (x *execution) emit(e tr.Ev, s log_buffer.VerifState) {
-	e["snap"] = x.snapEv(s)
+	if x.snaps {
+		e["snap"] = x.snapEv(s)
+	}
 	x.w.Emit(e)
 }
 
@@ -370,8 +374,14 @@ func (x *execution) stepReader(rd *reader, ev string) bool {
 	var a arrival
 	select {
 	case a = <-rd.arr:
-	case <-time.After(60 * time.Second):
-		tr.Fatal("reader %d stuck", rd.id)
+	case <-time.After(20 * time.Second):
+		// the subscriber does not come back from the buffer's code (it is handed nothing, it does not
+		// wait, it does not return): an observation, not a harness failure.  The execution ends here;
+		// the goroutine (it may hold the buffer's read lock) is abandoned.
+		rd.dead = true
+		x.hung = true
+		x.w.Emit(tr.Ev{"ev": "rderr", "r": rd.id, "got": [][2]int{}, "msg": "no progress for 20 s inside the buffer's code"})
+		return false
 	}
 	s := x.snapshot()
 	if a.done || a.pc == "panic" {
@@ -408,6 +418,7 @@ func runExecution(w *tr.Writer, ex []tr.Ev) {
 	interval := geti(cfg, "interval", 2)
 	capN := geti(cfg, "cap", 2)
 	psz := geti(cfg, "psz", 8)
+	x.snaps = tr.B(cfg, "snap")
 	x.esize = entrySize(psz)
 	fi := time.Duration(int64(interval)/x.tm.k*x.tm.unit + int64(interval)%x.tm.k)
 	notify := func() {}
@@ -424,6 +435,9 @@ func runExecution(w *tr.Writer, ex []tr.Ev) {
 	w.Emit(cfg)
 	defer x.cleanup()
 	for _, e := range ex[1:] {
+		if x.hung {
+			return
+		}
 		op := tr.S(e, "ev")
 		switch op {
 		case "append":
@@ -438,7 +452,7 @@ func runExecution(w *tr.Writer, ex []tr.Ev) {
 				return
 			}
 			s := x.afterMutation()
-			x.emit(tr.Ev{"ev": "append", "id": id, "req": req, "psz": len(p)}, s)
+			x.emit(tr.Ev{"ev": "append", "id": id, "req": req, "psz": len(p), "ts": x.tm.logical(s.LastTs)}, s)
 		case "tflush":
 			if x.shut {
 				continue
@@ -474,14 +488,14 @@ func runExecution(w *tr.Writer, ex []tr.Ev) {
 			}
 			f.mu.Unlock()
 			if !ready {
-				x.emit(tr.Ev{"ev": "fl2", "res": "none"}, x.snapshot())
+				x.emit(tr.Ev{"ev": "fl2", "res": "none", "got": [][2]int{}}, x.snapshot())
 				continue
 			}
 			f.waitFor("flushFn to return", func() bool { return f.returned >= n })
 			x.awaitLastFlush(item.stop)
 			x.completed++
 			x.settle()
-			x.emit(tr.Ev{"ev": "fl2", "res": "ok"}, x.snapshot())
+			x.emit(tr.Ev{"ev": "fl2", "res": "ok", "got": x.tm.parseEntries(item.data)}, x.snapshot())
 		case "start":
 			r := tr.I(e, "r")
 			if x.readers[r] != nil {
@@ -506,6 +520,7 @@ func runExecution(w *tr.Writer, ex []tr.Ev) {
 			}
 			x.quiesce()
 		case "drain":
+			x.w.Emit(tr.Ev{"ev": "drain"})
 			for _, r := range x.order {
 				rd := x.readers[r]
 				if rd.dead {
@@ -524,6 +539,7 @@ func runExecution(w *tr.Writer, ex []tr.Ev) {
 					x.emit(tr.Ev{"ev": "end", "r": r}, x.snapshot())
 				}
 			}
+			return // the drain ends the execution (what follows it in a replayed trace are its recorded results)
 		case "snap", "end", "panic", "rderr":
 			// recorded results of an earlier run: ignored on replay
 		default:
@@ -589,7 +605,7 @@ func (x *execution) cleanup() {
 			}
 		}
 	}
-	if !x.shut {
+	if !x.shut && !x.hung {
 		x.lb.Shutdown()
 	}
 }
@@ -653,7 +669,7 @@ func storm(w *tr.Writer, seed int64, c stormCfg) {
 		lb = log_buffer.VerifNewLogBuffer("c22", fi, flushFn, notify, c.cap*esize)
 	}
 	w.Emit(tr.Ev{"ev": "reset", "mode": "storm-" + c.mode, "interval": c.interval, "cap": c.cap,
-		"unit": int(tm.unit), "k": k, "psz": 8})
+		"unit": strconv.FormatInt(tm.unit, 10), "k": k, "psz": 8})
 
 	var rotMu sync.Mutex // appender and harness timer take turns, so that the lag bound holds
 	lagOK := func() bool { return lb.VerifQueued()+int(atomic.LoadInt32(&inFn)) <= 2 }
@@ -684,19 +700,30 @@ func storm(w *tr.Writer, seed int64, c stormCfg) {
 			pszs[i] = 8 + rng.Intn(3)*7
 		}
 	}
-	var drained int32
+	var drained, broken int32
 	var wg sync.WaitGroup
 	done := make(chan struct{})
 	// appender
 	wg.Add(1)
 	go func() {
 		defer wg.Done()
+		defer func() {
+			if p := recover(); p != nil {
+				w.Emit(tr.Ev{"ev": "panic", "r": 0, "got": [][2]int{}, "msg": fmt.Sprint(p)})
+				atomic.StoreInt32(&appended, int32(c.events))
+				atomic.StoreInt32(&broken, 1)
+				rotMu.Unlock()
+			}
+		}()
 		for i := 1; i <= c.events; i++ {
 			rotMu.Lock()
 			waitLag()
-			w.Emit(tr.Ev{"ev": "append", "id": i, "req": reqs[i], "psz": pszs[i]})
+			// logged before the call: whatever a subscriber is handed has been logged as appended;
+			// the timestamp the buffer gave it follows as "appended" (there is one appender)
+			w.Emit(tr.Ev{"ev": "append", "id": i, "req": reqs[i], "psz": pszs[i], "ts": 0})
 			atomic.StoreInt32(&appended, int32(i))
 			lb.AddToBuffer(partKey, payload(i, pszs[i]), tm.real(reqs[i]))
+			w.Emit(tr.Ev{"ev": "appended", "id": i, "ts": tm.logical(lb.VerifLastTs())})
 			rotMu.Unlock()
 			if i%3 == 0 {
 				runtime.Gosched()
@@ -734,6 +761,11 @@ func storm(w *tr.Writer, seed int64, c stormCfg) {
 		rwg.Add(1)
 		go func(r int) {
 			defer rwg.Done()
+			defer func() {
+				if p := recover(); p != nil {
+					w.Emit(tr.Ev{"ev": "panic", "r": r, "got": [][2]int{}, "msg": fmt.Sprint(p)})
+				}
+			}()
 			for int(atomic.LoadInt32(&appended)) < startAfter {
 				runtime.Gosched()
 			}
@@ -760,9 +792,13 @@ func storm(w *tr.Writer, seed int64, c stormCfg) {
 			lrt := time.Unix(0, tm.real(t0))
 			sizeBuf := make([]byte, 4)
 			var memErr error
+			handed := 0
 			deliver := func(pc string) func(e *filer_pb.LogEntry) error {
 				return func(e *filer_pb.LogEntry) error {
 					w.Emit(tr.Ev{"ev": "rd", "r": r, "got": [][2]int{tm.decode(e)}, "pc": pc, "pend": 0})
+					if handed++; handed > 20*c.events+100 {
+						return errStop // a subscriber that is handed far more than was ever appended: recorded, stop
+					}
 					return nil
 				}
 			}
@@ -783,7 +819,7 @@ func storm(w *tr.Writer, seed int64, c stormCfg) {
 				} else if memErr == log_buffer.ResumeFromDiskError {
 					runtime.Gosched()
 					idle++
-					if idle > 5000000 {
+					if idle > 20000 {
 						w.Emit(tr.Ev{"ev": "rderr", "r": r, "got": [][2]int{}, "msg": "resume-from-disk loop"})
 						return
 					}
@@ -821,6 +857,12 @@ func storm(w *tr.Writer, seed int64, c stormCfg) {
 		}(r)
 	}
 	wg.Wait()
+	if atomic.LoadInt32(&broken) != 0 {
+		// AddToBuffer panicked (recorded): nothing more can be expected of this buffer
+		atomic.StoreInt32(&drained, 1)
+		close(done)
+		return
+	}
 	// quiesce: everything is flushed, then the subscribers finish
 	rotMu.Lock()
 	lb.Shutdown()
@@ -853,7 +895,14 @@ func storm(w *tr.Writer, seed int64, c stormCfg) {
 	w.Emit(tr.Ev{"ev": "quiesce", "disk": [][2]int{}})
 	atomic.StoreInt32(&drained, 1)
 	close(done)
-	rwg.Wait()
+	fin := make(chan struct{})
+	go func() { rwg.Wait(); close(fin) }()
+	select {
+	case <-fin:
+	case <-time.After(30 * time.Second):
+		// a subscriber that neither finishes nor waits long after everything has been flushed
+		w.Emit(tr.Ev{"ev": "rderr", "r": 0, "got": [][2]int{}, "msg": "a subscriber made no progress for 30 s after the log went quiet"})
+	}
 }
 
 func runStorm(o *tr.Opts, w *tr.Writer) {
